@@ -32,7 +32,7 @@ type Scenario struct {
 	Run    func()
 	Check  func(tr *mc.Trace) []Violation
 	P, F   int // preemption / fault bounds
-	D      int // delay bound: any non-default scheduling choice costs one delay (0 = unbounded, i.e. classic preemption bounding)
+	D      int // delay bound: any non-default scheduling choice costs one delay (0 = unbounded, i.e. classic preemption bounding; <0 = default schedule only)
 	Cfg    mc.Config
 	MaxExe int64 // execution cap for this scenario (0 = none); hitting it makes the run non-exhaustive
 	Note   string
@@ -201,7 +201,7 @@ func children(sc *Scenario, tr *mc.Trace, prefixLen int) [][]int {
 			if p.Kind == 3 {
 				nf++
 			}
-			if np > sc.P || nf > sc.F || (sc.D > 0 && nd > sc.D) {
+			if np > sc.P || nf > sc.F || (sc.D > 0 && nd > sc.D) || (sc.D < 0 && p.Kind == 0) {
 				continue
 			}
 			c := make([]int, i+1)
